@@ -89,10 +89,17 @@ def kw(call, name, default=None):
 
 
 def const(e):
+    """Value of a literal (integer arithmetic on literals folded)."""
     if isinstance(e, ast.Constant):
         return e.value
-    if isinstance(e, ast.UnaryOp) and isinstance(e.op, ast.USub) and isinstance(e.operand, ast.Constant):
-        return -e.operand.value
+    if isinstance(e, ast.UnaryOp) and isinstance(e.op, ast.USub):
+        v = const(e.operand)
+        return -v if isinstance(v, (int, float)) and not isinstance(v, bool) else None
+    if isinstance(e, ast.BinOp) and isinstance(e.op, (ast.Add, ast.Sub, ast.Mult)):
+        a, b = const(e.left), const(e.right)
+        if not all(isinstance(x, int) and not isinstance(x, bool) for x in (a, b)):
+            return None
+        return a + b if isinstance(e.op, ast.Add) else (a - b if isinstance(e.op, ast.Sub) else a * b)
     return None
 
 
@@ -245,6 +252,8 @@ class PredictEval:
             return self.env.get(e.id, ("opaque", e.id))
         if isinstance(e, ast.Constant):
             return ("const", e.value)
+        if isinstance(e, (ast.BinOp, ast.UnaryOp)) and isinstance(const(e), int):
+            return ("const", const(e))
         if isinstance(e, ast.Attribute):
             if is_self_attr(e):
                 return ("self", e.attr)
@@ -494,7 +503,16 @@ class FitInfo:
             ext = self.scope.ext(f)
             if ext in self.WRAPPERS and e.args:
                 return self.kind(e.args[0])
-            if isinstance(f, ast.Attribute) and f.attr in ("reshape", "to_numpy", "ravel", "copy", "astype") and ext is None:
+            if isinstance(f, ast.Attribute) and f.attr == "reshape" and ext is None:
+                # only the 1-d / single-column views keep every label: reshape(-1), reshape(-1, 1), reshape((-1, 1))
+                dims = list(e.args)
+                if len(dims) == 1 and isinstance(dims[0], (ast.Tuple, ast.List)):
+                    dims = list(dims[0].elts)
+                vals = [const(d) for d in dims]
+                if vals in ([-1], [-1, 1], [1, -1]):
+                    return self.kind(f.value)
+                return "subset" if self.kind(f.value) is not None else None
+            if isinstance(f, ast.Attribute) and f.attr in ("to_numpy", "ravel", "copy", "astype") and ext is None:
                 return self.kind(f.value)
             if isinstance(f, ast.Attribute) and f.attr in ("transform", "fit_transform") and is_self_attr(f.value) \
                     and len(e.args) == 1 and self.kind(e.args[0]) == "y":
